@@ -35,7 +35,7 @@ POOL = [1e-7, 1e22, -0.0, 0.1 + 0.2, 2 ** 53 + 1, 1e300, 123456789012345678, -3,
         '!!python/none', '&a *a', '%TAG', '>folded', '|literal', 'a #c', '\t tab', 'NaN', '.inf',
         'x' * 300, 'tab\tin', 'back\\slash', 'cr\rlf', ' ',
         'del\x7fch', 'c1\x9fctl', 'nel\x85here', 'non\ufffechar', 'emoji\U0001F600!',
-        'ls\u2028ps\u2029', '\ufeffbom', 'esc\x1b[0m', 'nul\x00byte']
+        'ls\u2028ps\u2029', '\ufeffbom', 'esc\x1b[0m', 'nul\x00byte', 'crlf\r\nline', 'lone\rcr']
 
 
 def same(a, b):
